@@ -30,7 +30,7 @@ func init() {
 			if fi == nil {
 				return
 			}
-			for _, cl := range callsIn(fi.Decl.Body) {
+			for _, cl := range fi.callsDeep(fi.Decl.Body) {
 				if n := fi.calleeName(cl); caseFolders[n] {
 					r.Bad("checkField/name-comparison", cl.Pos(), "%s takes part in field-name matching: names differing only in letter case are confused", n)
 				}
@@ -120,7 +120,7 @@ func init() {
 			af := c.Fn(c.W, "allFields")
 			hit := false
 			if af != nil {
-				for _, cl := range callsIn(af.Decl.Body) {
+				for _, cl := range af.callsDeep(af.Decl.Body) {
 					if caseFolders[af.calleeName(cl)] {
 						hit = true
 						r.Control("case-folding detector (allFields compares with \"*\", harmless)", true, cl.Pos())
@@ -162,7 +162,7 @@ func init() {
 			sp := r.Need(c.Fn(c.W, "processStructProvider"), "processStructProvider")
 			if sp != nil {
 				n := 0
-				ast.Inspect(sp.Decl.Body, func(nd ast.Node) bool {
+				sp.inspect(sp.Decl.Body, func(nd ast.Node) bool {
 					cl, ok := nd.(*ast.CompositeLit)
 					if !ok || !isNamed(sp.Info.TypeOf(cl), pathW, "ProviderInput") {
 						return true
@@ -211,7 +211,7 @@ func init() {
 			fo := r.Need(c.Fn(c.W, "processFieldsOf"), "processFieldsOf")
 			if fo != nil {
 				n := 0
-				ast.Inspect(fo.Decl.Body, func(nd ast.Node) bool {
+				fo.inspect(fo.Decl.Body, func(nd ast.Node) bool {
 					cl, ok := nd.(*ast.CompositeLit)
 					if !ok || !isNamed(fo.Info.TypeOf(cl), pathW, "Field") {
 						return true
@@ -250,7 +250,7 @@ func init() {
 			sp := r.Need(c.Fn(c.W, "processStructProvider"), "processStructProvider")
 			if sp != nil {
 				n := 0
-				ast.Inspect(sp.Decl.Body, func(nd ast.Node) bool {
+				sp.inspect(sp.Decl.Body, func(nd ast.Node) bool {
 					cl, ok := nd.(*ast.CompositeLit)
 					if !ok || !isNamed(sp.Info.TypeOf(cl), pathW, "Provider") {
 						return true
@@ -285,7 +285,7 @@ func init() {
 			}
 			fo := r.Need(c.Fn(c.W, "processFieldsOf"), "processFieldsOf")
 			if fo != nil {
-				ast.Inspect(fo.Decl.Body, func(nd ast.Node) bool {
+				fo.inspect(fo.Decl.Body, func(nd ast.Node) bool {
 					cl, ok := nd.(*ast.CompositeLit)
 					if !ok || !isNamed(fo.Info.TypeOf(cl), pathW, "Field") {
 						return true
@@ -423,7 +423,7 @@ func init() {
 				allowed["*ast."+t] = true
 			}
 			var insp *ast.CallExpr
-			for _, cl := range callsIn(fi.Decl.Body) {
+			for _, cl := range fi.callsDeep(fi.Decl.Body) {
 				if fi.calleeName(cl) == "go/ast.Inspect" {
 					insp = cl
 				}
@@ -709,7 +709,7 @@ func init() {
 				return
 			}
 			var lit *ast.FuncLit
-			for _, cl := range callsIn(af.Decl.Body) {
+			for _, cl := range af.callsDeep(af.Decl.Body) {
 				if af.calleeName(cl) == "go/ast.Inspect" {
 					lit, _ = ast.Unparen(cl.Args[1]).(*ast.FuncLit)
 					r.Check(af.varOf(cl.Args[0]) != nil && af.isParam(af.varOf(cl.Args[0])), "walk/whole-expression", cl.Pos(), "the walk starts at the expression passed in")
